@@ -489,4 +489,5 @@ RULES = [
 	('15.z', 'named protocol / policy constants in this property\'s files have their reviewed values (rules/provenance.py)', lambda F: provenance.consts_for_property(F, 'C15', '15.z')),
 	('15.x', 'range indexing of fixed-size buffers stays in bounds wherever the end is statically bounded (a wire length byte can be 255; rules/provenance.py)', lambda F: provenance.arrays_for_property(F, 'C15', '15.x')),
 	('15.v', 'field-versus-field comparisons (a received value against a limit, an id against an id) are the reviewed ones: same fields, same operator (rules/provenance.py)', lambda F: provenance.cmps_for_property(F, 'C15', '15.v')),
+	('15.y', 'no reviewed function gained a swallowed error (the Result of a fallible in-crate call dropped; rules/provenance.py)', lambda F: provenance.dr_for_property(F, 'C15', '15.y')),
 ]
